@@ -38,6 +38,7 @@ def gen(tier, rng):
                              smtpgen.step(b"221 bye\r\n")]
                     cases.append(smtpgen.client_case("sa"[i % 2], "c.example", "AQ", "a@b.c", ["x@y.z"], b"m", "".join(prefs), "user", "secretpw", steps))
                     i += 1
+    cases.append("ctor\tmech")
     cases += urlcred_cases(rng, {"quick": 150, "search": 500, "thorough": 3000}[tier])
     return cases
 
@@ -81,23 +82,23 @@ def timing_dependent(case):
 
 def nontrivial(case):
     f = case.split("\t")
-    if f[0] == "urlcred":
+    if f[0] in ("urlcred", "ctor"):
         return True
     return "333334" in f[10] or f[7] == "-" or ":c" in f[10]
 
 
 def shrinkable(case):
-    if case.startswith("urlcred"):
+    if case.startswith("urlcred") or case.startswith("ctor"):
         return []
     return [8, 9]
 
 
 def distribution(cases):
-    d = c05.distribution([c for c in cases if not c.startswith("urlcred")])
+    d = c05.distribution([c for c in cases if not c.startswith("urlcred") and not c.startswith("ctor")])
     for c in cases:
         f = c.split("\t")
-        if f[0] == "urlcred":
-            d["urlcred"] = d.get("urlcred", 0) + 1
+        if f[0] in ("urlcred", "ctor"):
+            d[f[0]] = d.get(f[0], 0) + 1
             continue
         d["prefs_" + f[7]] = d.get("prefs_" + f[7], 0) + 1
     return d
